@@ -80,6 +80,8 @@ pub type CaseResult = Result<(), Failure>;
 pub struct Stats {
     pub evaluations: u64,
     pub nontrivial: HashSet<u64>,
+    /// Non-trivial cases that are distinct by construction (enumerations), counted not hashed.
+    pub nontrivial_enumerated: u64,
     pub classes: BTreeMap<String, u64>,
     pub counters: BTreeMap<String, u64>,
     pub samples: Vec<String>,
@@ -106,6 +108,9 @@ impl Stats {
     pub fn count(&mut self, name: &str, n: u64) {
         *self.counters.entry(name.to_string()).or_insert(0) += n;
     }
+    pub fn distinct_nontrivial(&self) -> u64 {
+        self.nontrivial.len() as u64 + self.nontrivial_enumerated
+    }
     pub fn nontrivial(&mut self, hash: u64) {
         self.nontrivial.insert(hash);
     }
@@ -119,6 +124,7 @@ impl Stats {
     pub fn merge(&mut self, other: Stats) {
         self.evaluations += other.evaluations;
         self.nontrivial.extend(other.nontrivial);
+        self.nontrivial_enumerated += other.nontrivial_enumerated;
         for (k, v) in other.classes {
             *self.classes.entry(k).or_insert(0) += v;
         }
@@ -494,7 +500,7 @@ impl Report {
         let st = &self.result.stats;
         let mut coverage = serde_json::Map::new();
         coverage.insert("evaluations".into(), json!(st.evaluations));
-        coverage.insert("distinct_nontrivial".into(), json!(st.nontrivial.len()));
+        coverage.insert("distinct_nontrivial".into(), json!(st.nontrivial.len() as u64 + st.nontrivial_enumerated));
         coverage.insert("rule".into(), json!(self.rule));
         coverage.insert("samples".into(), json!(st.samples));
         coverage.insert("classes".into(), json!(st.classes));
